@@ -595,8 +595,14 @@ func (l *Log) buildQuery(ob *Obligation, extraPrelude string) string {
 		sb.WriteString("(assert (not " + ob.Formula.S + "))\n")
 	}
 	sb.WriteString("(check-sat)\n")
-	if len(ob.Inputs) > 0 {
-		sb.WriteString("(get-value (" + strings.Join(ob.Inputs, " ") + "))\n")
+	var ins []string
+	for _, in := range ob.Inputs {
+		if rel[in] {
+			ins = append(ins, in)
+		}
+	}
+	if len(ins) > 0 {
+		sb.WriteString("(get-value (" + strings.Join(ins, " ") + "))\n")
 	}
 	return sb.String()
 }
